@@ -33,9 +33,10 @@ type cacheEntry struct {
 }
 
 type Loader struct {
-	mu     sync.RWMutex
-	cache  map[string]cacheEntry
-	limits Limits
+	mu      sync.RWMutex
+	cache   map[string]cacheEntry
+	limits  Limits
+	overlay func(path string) (string, bool)
 }
 
 func NewLoader() *Loader {
@@ -71,6 +72,25 @@ func (l *Loader) SetLimits(limits Limits) {
 		l.cache = make(map[string]cacheEntry)
 	}
 	l.limits = limits
+}
+
+// SetOverlay installs a function giving the text of files that are open in
+// the editor. An included file it knows is taken from there, not from disk or
+// from the cache: what the user sees in the buffer is what the file says.
+func (l *Loader) SetOverlay(overlay func(path string) (string, bool)) {
+	l.mu.Lock()
+	defer l.mu.Unlock()
+	l.overlay = overlay
+}
+
+func (l *Loader) overlayContent(path string) (string, bool) {
+	l.mu.RLock()
+	overlay := l.overlay
+	l.mu.RUnlock()
+	if overlay == nil {
+		return "", false
+	}
+	return overlay(path)
 }
 
 func (l *Loader) getLimits() Limits {
@@ -240,6 +260,22 @@ func (l *Loader) loadSingleInclude(
 			Message: fmt.Sprintf("include depth limit exceeded (%d)", limits.MaxIncludeDepth),
 			Range:   incRange,
 		})
+		return errors
+	}
+
+	if content, open := l.overlayContent(includePath); open {
+		if int64(len(content)) > limits.MaxFileSizeBytes {
+			errors = append(errors, LoadError{
+				Kind:    ErrorFileTooLarge,
+				Path:    includePath,
+				Message: fmt.Sprintf("included file too large: %d bytes (max %d)", len(content), limits.MaxFileSizeBytes),
+				Range:   incRange,
+			})
+			return errors
+		}
+		subResult, subErrors := l.resolveIncludes(includePath, parseFile(includePath, content), state, depth+1)
+		errors = append(errors, subErrors...)
+		mergeIncluded(result, includePath, subResult)
 		return errors
 	}
 
